@@ -117,14 +117,16 @@ def _key(n: int, c0: int, c1: int, c2: int) -> str:
 
 
 def _pre_css(B, n, c0, c1, c2, kv, v, w, m):
+    if kv == 4 and not (len(w) == 0 and m == 0):
+        return False
     return 1 <= n <= B["NK"] and 0 <= c0 <= 3 and 0 <= c1 <= 3 and 0 <= c2 <= 3 and (n >= 2 or c1 == 0) and (n >= 3 or c2 == 0) \
-        and 0 <= kv <= 3 and len(v) <= B["L"] and len(w) <= B["L"] and -1000 <= m <= 1000
+        and 0 <= kv <= 4 and len(v) <= B["L"] and len(w) <= B["L"] and -1000 <= m <= 1000
 
 
 @harness("C16", pre=_pre_css, bounds={"quick": {"L": 1, "NK": 2}, "thorough": {"L": 1, "NK": 3}},
-         shard={"kv": range(4), "c0": range(4)},
+         shard={"kv": range(5), "c0": range(4)},
          sym=["v, w: property values, str over all code points, len <= L", "m: int"],
-         sel=["n, c0..c2: every keyword name over {a,B,_,1} up to 3 characters", "kv: value pattern (str,str / None,str / str,int / None,None)"],
+         sel=["n, c0..c2: every keyword name over {a,B,_,1} up to 3 characters", "kv: value pattern (str,str / None,str / str,int / None,None / keyword spellings that normalise to the same property)"],
          targets=["htmltools._util.css", "htmltools._core.Tag.add_style"],
          timeout={"quick": 150, "thorough": 900})
 def h_css(n: int, c0: int, c1: int, c2: int, kv: int, v: str, w: str, m: int) -> bool:
@@ -139,6 +141,10 @@ def h_css(n: int, c0: int, c1: int, c2: int, kv: int, v: str, w: str, m: int) ->
     elif kv == 2:
         kw = {k2: v, k1: m}
         want = "z-index-x:" + v + ";" + ref_css_key(k1) + ":" + str(m) + ";"
+    elif kv == 4:
+        # two spellings that normalise to the same property: still one declaration per argument, in order
+        kw = {"font_size": v, k1: 7, "fontSize": "9px", "font-size": "z"}
+        want = "font-size:" + v + ";" + ref_css_key(k1) + ":7;font-size:9px;font-size:z;"
     else:
         kw = {k1: None, k2: None}
         want = None
